@@ -7,6 +7,20 @@ CLAIMED = {
              text="Decides, for every history and each of the 8 subsets at once, the structural clause 'no element access of an optional bottom-up cache is reachable from a mutator, iterator constructor, garbage collection or file reader without the cache being known to be enabled', plus the enable/disable protocol. Guards are history independent, so the clause is decided exhaustively; the behavioural half (same mesh as with all kinds enabled) is not decided.",
              design="3/C12, 2/G"),
 }
+CLAIMED.update({
+ "C01": dict(technique="static analysis: effect extraction + lock-step rule L over clang CFG guard sets (definition arrays vs bottom-up caches), cache element link/unlink rules",
+             text="Decides the structural necessary conditions of cache/definition inversion: every grow/erase/clear of a definition array is mirrored on the cache of its sub-kind under the cache guard in every mutator and every deletion mode; link sites in add_*, mode-independent unlink sites in delete_*_core, ownership-guarded resets, compute_* running over deleted-skipping ranges, set_* unlink/link. Not decided: that the pushed values are the right ones.",
+             design="3/C01, 2/L"),
+ "C02": dict(technique="static analysis: lock-step rule L (definition vs deleted flags vs counters), CFG order/reachability rules for the deletion closure, literal rules for the renumbering helpers",
+             text="Decides: definition/flag/counter lock-step in all four modes, deferred pair, collect_garbage reset/zero/order, closure order and reverse iteration in delete_vertex/edge/face, closure helpers never touching raw arrays, n_logical_*/genus agreement, renumbering constants and placement. Not decided: that survivors keep their definitions.",
+             design="3/C02, 2/L"),
+ "C03": dict(technique="static analysis: lock-step rule L between definition arrays and property notifications incl. position agreement; ResourceManager/PropertyStorage shape rules",
+             text="Decides: every grow/erase/clear of a kind is mirrored by the property notification of that kind at the same position and under the same conditions (both directions); half-kind sizing 2n, erase order, tracker/entity-tag agreement in all template instantiations, default fill, mesh-kind sizing. Not decided: value preservation itself.",
+             design="3/C03, 2/L"),
+ "C17": dict(technique="static analysis: lock-step rule L for the swap effect + guard/dominance rules for the no-op return, processed sets and sibling rewrite branches",
+             text="Decides: every swap_K_indices swaps definition, flag, properties (half kinds side by side) and cache under identical conditions; self-swap returns before any effect; processed-set protocol (scope, find/insert key = rewritten entry); rewrite tests in both the cache-guided and linear branches. Not decided: involution / untouched others as behaviour.",
+             design="3/C17, 2/L"),
+})
 NOT_YET = {}
 NA = {
  "C10": "soundness/completeness of the lookup queries against a brute-force search is an equality over runtime values of small search loops; no structural necessary condition exists that is not a brittle proxy (DESIGN 3/C10)",
